@@ -20,6 +20,7 @@ __all__ = [
 ]
 VPK_SIG: Final = 0x55aa1234  #: The first byte of VPK files.
 DIR_ARCH_INDEX: Final = 0x7fff  #: The file index used for the ``_dir`` file.
+MAX_PRELOAD: Final = 0xffff  #: The most data which can be stored inside the directory tree for one file.
 FileName: TypeAlias = Union[str, tuple[str, str], tuple[str, str, str]]
 
 
@@ -225,14 +226,17 @@ class FileInfo:
         # noinspection PyProtectedMember
         prefix = self.vpk._dir_prefix
 
-        if prefix is None or self.vpk.dir_limit is None:
-            # Singular VPK, or no limit for the directory: everything is kept in the directory.
-            self.start_data = data
-            self.arch_len = 0
-            return
+        limit = self.vpk.dir_limit
+        if prefix is None or limit is None:
+            # Singular VPK, or no limit for the directory: everything is kept in the directory file.
+            # The preload size is a 16-bit field, anything more goes after the tree.
+            arch_index = None
+            limit = MAX_PRELOAD
+        elif limit > MAX_PRELOAD:
+            limit = MAX_PRELOAD
 
-        self.start_data = data[:self.vpk.dir_limit]
-        arch_data = data[self.vpk.dir_limit:]
+        self.start_data = data[:limit]
+        arch_data = data[limit:]
 
         self.arch_len = len(arch_data)
 
